@@ -8,6 +8,7 @@ N1  ``return next((e for x in D if c), default)``           ->  ``for x in D: if
 N2  a list comprehension that calls a helper which must be run in place (a private helper or local closure with
     statement effects / loops)                              ->  the accumulator loop it abbreviates
 N4  ``for x in X: acc.append(x)``                               ->  ``acc.extend(X)``
+N5  ``for y in (f(x) for x in D if c): body``                    ->  ``for x in D: if c: y = f(x); body``
 N3  a call of such a helper in expression position          ->  hoisted into ``tmp = helper(...)`` right before the statement
                                                                 (the path enumerator then runs the helper's body in place)
 
@@ -54,6 +55,7 @@ class Normalizer:
         key = id(d)
         if key not in self._cache:
             ctx = _Ctx(self.model, fn, set(local_names or ()))
+            ctx.root = d
             self._cache[key] = ctx.block(list(d.body))
         return self._cache[key]
 
@@ -63,6 +65,7 @@ class _Ctx:
         self.model, self.fn = model, fn
         self.closures = closures           # names of nested defs seen so far (statement-inlined by the enumerator)
         self.n = 0
+        self.root: Optional[ast.AST] = None
 
     # -- which calls must be run in place -------------------------------------------------------------
     def helper_def(self, call: ast.Call) -> Optional[ast.FunctionDef]:
@@ -142,9 +145,12 @@ class _Ctx:
             new.orelse = self.block(st.orelse)
             return pre + [new]
         if isinstance(st, ast.For):
+            mapped = self._mapped_loop(st)
+            if mapped is not None:
+                return self.stmt(mapped)
             pre, it = self.hoist(st.iter, st)
             ext = _as_extend(st, it)
-            if ext is not None:
+            if ext is not None and self._is_local_list(ext.value.func.value.id):
                 return pre + [ext]
             new = copy.copy(st)
             new.iter = it
@@ -208,6 +214,45 @@ class _Ctx:
             new.value = v2
             return pre + [new]
         return [st]
+
+    def _is_local_list(self, name: str) -> bool:
+        """every binding of ``name`` in this function is a list display / list comprehension (or it is one of our own accumulators)"""
+        if name.startswith(TMP):
+            return True
+        if self.root is None:
+            return False
+        binds = [n for n in ast.walk(self.root) if isinstance(n, (ast.Assign, ast.AnnAssign)) and
+                 any(isinstance(t, ast.Name) and t.id == name for t in (n.targets if isinstance(n, ast.Assign) else [n.target]))]
+        params = {a.arg for a in ast.walk(self.root) if isinstance(a, ast.arg)}
+        return bool(binds) and name not in params and all(isinstance(b.value, (ast.List, ast.ListComp)) for b in binds)
+
+    # -- N5 -------------------------------------------------------------------------------------------
+    def _mapped_loop(self, st: ast.For) -> Optional[ast.For]:
+        """``for y in (f(x) for x in D if c): body``  ->  ``for x in D: if c: y = f(x); body`` (also through a local name that is bound once to
+        the comprehension and used only here)"""
+        it = st.iter
+        if isinstance(it, ast.Name) and self.root is not None:
+            binds = [n for n in ast.walk(self.root) if isinstance(n, (ast.Assign, ast.AnnAssign)) and
+                     any(isinstance(t, ast.Name) and t.id == it.id for t in (n.targets if isinstance(n, ast.Assign) else [n.target]))]
+            loads = [n for n in ast.walk(self.root) if isinstance(n, ast.Name) and n.id == it.id and isinstance(n.ctx, ast.Load)]
+            if len(binds) == 1 and len(loads) == 1 and isinstance(binds[0].value, ast.GeneratorExp) and binds[0].lineno < st.lineno:
+                it = binds[0].value
+        if not isinstance(it, ast.GeneratorExp) or len(it.generators) != 1 or it.generators[0].is_async or st.orelse:
+            return None
+        if any(isinstance(n, (ast.Break,)) for n in ast.walk(st)) and it.generators[0].ifs:
+            pass
+        g = it.generators[0]
+        if {n.id for n in ast.walk(g.target) if isinstance(n, ast.Name)} & {n.id for n in ast.walk(st.target) if isinstance(n, ast.Name)}:
+            return None
+        bind = ast.Assign(targets=[st.target], value=it.elt)
+        body: List[ast.stmt] = [bind] + list(st.body)
+        for c in reversed(g.ifs):
+            body = [ast.If(test=c, body=body, orelse=[])]
+        new = ast.For(target=g.target, iter=g.iter, body=body, orelse=[])
+        for n in [new, bind] + [b for b in body if isinstance(b, ast.If)]:
+            ast.copy_location(n, st)
+        ast.fix_missing_locations(new)
+        return new
 
     def hoist(self, e: ast.expr, at: ast.AST):
         calls = self._calls_in(e)
